@@ -281,10 +281,11 @@ pub(crate) fn parse_struct(s: &ItemStruct, target_os: &[String]) -> Result<RustI
         }
         // Tuple structs
         Fields::Unnamed(f) => {
-            if f.unnamed.len() > 1 {
+            // Exactly one field is supported: `struct A(T, U)` and `struct A()` are rejected.
+            let mut unnamed = f.unnamed.iter();
+            let (Some(f), None) = (unnamed.next(), unnamed.next()) else {
                 return Err(ParseError::ComplexTupleStruct);
-            }
-            let f = &f.unnamed[0];
+            };
 
             let ty = if let Some(ty) = get_field_type_override(&f.attrs) {
                 ty.parse()?
@@ -438,11 +439,11 @@ fn parse_enum_variant(
     match &v.fields {
         syn::Fields::Unit => Ok(RustEnumVariant::Unit(shared)),
         syn::Fields::Unnamed(associated_type) => {
-            if associated_type.unnamed.len() > 1 {
+            // Exactly one field is supported: `V(T, U)` and `V()` are rejected.
+            let mut unnamed = associated_type.unnamed.iter();
+            let (Some(first_field), None) = (unnamed.next(), unnamed.next()) else {
                 return Err(ParseError::MultipleUnnamedAssociatedTypes);
-            }
-
-            let first_field = associated_type.unnamed.first().unwrap();
+            };
 
             let ty = if let Some(ty) = get_field_type_override(&first_field.attrs) {
                 ty.parse()?
